@@ -241,14 +241,23 @@ pub fn long_random_path(rng: &mut Rng, win: bool) -> Vec<u8> {
         match rng.below(12) {
             0 => v.extend_from_slice(b"."),
             1 => v.extend_from_slice(b".."),
-            2 => {
-                // a synthetic name of a random length, so that every length up to 40 occurs
+            2 | 4 => {
+                // a synthetic name of a random length, so that every length up to 40 occurs; now and
+                // then with leading / trailing dots (`.name`, `..name`, `name.`, `name..`)
+                match rng.below(8) {
+                    0 => v.push(b'.'),
+                    1 => v.extend_from_slice(b".."),
+                    _ => {}
+                }
                 let n = 1 + rng.below(40);
                 for k in 0..n {
                     v.push(b'a' + ((k + i) % 26) as u8);
                 }
-                if rng.chance(1, 2) {
-                    v.extend_from_slice(b".ext");
+                match rng.below(8) {
+                    0 | 1 | 2 => v.extend_from_slice(b".ext"),
+                    3 => v.push(b'.'),
+                    4 => v.extend_from_slice(b".."),
+                    _ => {}
                 }
             }
             3 => {
@@ -404,6 +413,12 @@ pub fn dom_args(win: bool, tier: &str, seed: u64) -> Vec<Vec<u8>> {
     }
     for n in [16usize, 17, 33, 65, 257] {
         v.push((0..n).map(|k| b'a' + (k % 26) as u8).collect());
+    }
+    // every byte value in the FIRST position of an argument
+    for b in 0..=255u8 {
+        if t || b >= 0x80 || !b.is_ascii_alphanumeric() {
+            v.push(vec![b, b'a']);
+        }
     }
     with_extras(v)
 }
